@@ -339,7 +339,8 @@ func (p c15Profile) render2(r *rand.Rand, variant bool) (string, string) {
 				prefixes[nn] = ns
 			}
 			if r.Intn(2) == 0 {
-				al := fmt.Sprintf("al%d%s", r.Intn(90)+10, k)
+				// alias names: letters first, a digit first, with a hyphen (all three are prefixes the language accepts)
+				al := fmt.Sprintf([]string{"al%d%s", "%dal-%s", "Z-%d%s"}[r.Intn(3)], r.Intn(90)+10, k)
 				cur := k
 				if nn, ok := renamed[k]; ok {
 					cur = nn
@@ -497,7 +498,7 @@ func yamlShape(n *yaml3.Node) string {
 
 func C15(e *core.Env) {
 	res := e.Res
-	res.Rule = "cases = (profile, rewriting): profiles with 2-4 validations over the three levels built from the C01 formula generator (every connective, nested / atLeast / atMost, all atom kinds, sequence / alternative / inverse paths, messages with placeholders), each rewritten k times (quick 6, thorough 30) by composing: a random permutation of the entries of EVERY mapping, of every level list and of every and/or operand list, consistent renaming of prefixes to fresh names, use of alias prefixes bound to the same namespace, three quoting styles where the tag is preserved, flow vs block style per sub-tree, indentation 2/3/4, comments, blank lines, document marker; every variant is validated on the same graphs and must give the same conforms flag and the same set of (severity, validation, focus, message); the IRI expander is compared with the model on the compact IRIs used; the repository's 29 integration fixtures and 5 hand-written profiles (embedded Rego setting $message in one of several operands, two expression keywords in one body, five-operand or / and lists with multi-branch operands over two prefixes, level lists with stray null / number / boolean entries) are rewritten the same way (3 / 10 variants quick, 12 / 40 thorough); " +
+	res.Rule = "cases = (profile, rewriting): profiles with 2-4 validations over the three levels built from the C01 formula generator (every connective, nested / atLeast / atMost, all atom kinds, sequence / alternative / inverse paths, messages with placeholders), each rewritten k times (quick 6, thorough 30) by composing: a random permutation of the entries of EVERY mapping, of every level list and of every and/or operand list, consistent renaming of prefixes to fresh names, use of alias prefixes bound to the same namespace, three quoting styles where the tag is preserved, flow vs block style per sub-tree, indentation 2/3/4, comments, blank lines, document marker; every variant is validated on the same graphs and must give the same conforms flag and the same set of (severity, validation, focus, message); the IRI expander is compared with the model on the compact IRIs used; the repository's 29 integration fixtures and 5 hand-written profiles (embedded Rego setting $message in one of several operands, two expression keywords in one body, five-operand or / and lists with multi-branch operands over two prefixes, level lists with stray null / number / boolean entries) are rewritten the same way (3 / 10 variants quick, 12 / 40 thorough); a profile relying on the built-in prefixes apiContract / core, spelled with its own (hyphenated, digit-first) prefixes for the same namespaces, before and after another profile that binds those names elsewhere; " +
 		"non-trivial = the original profile reports at least one result on some graph; distinct by variant text"
 	rc := config.DefaultReportConfiguration()
 	k := e.Pick(6, 30)
@@ -1446,5 +1447,49 @@ func c15HandWritten(e *core.Env, rc config.ReportConfiguration, summary func(str
 	}
 	for i, p := range append(append([]string{}, c15Hand...), c15HandStray, c15HandRegoMessage) {
 		c15Text(e, rc, summary, defaults, fmt.Sprintf("hand-written profile %d", i), "harness/props/c15.go c15Hand", "hand-written", "#%Validation Profile 1.0\n"+p, datas, dnames, e.Pick(10, 40))
+	}
+	// the built-in prefixes and a history: a profile that relies on the built-in prefix apiContract / core, the same profile
+	// spelled with its own prefix for the same namespace, before and after ANOTHER profile that binds those prefix names to
+	// other namespaces was compiled and used in the process - one verdict
+	{
+		res := e.Res
+		const apiNS, coreNS = "http://a.ml/vocabularies/apiContract#", "http://a.ml/vocabularies/core#"
+		body := func(api, core string) string {
+			return "violation:\n  - named\nwarning:\n  - versioned\nvalidations:\n" +
+				"  named:\n    targetClass: " + api + ".WebAPI\n    message: \"the API {{" + core + ".name}} needs a description\"\n    propertyConstraints:\n      " + core + ".description:\n        minCount: 1\n" +
+				"  versioned:\n    targetClass: " + api + ".WebAPI\n    message: version\n    propertyConstraints:\n      " + api + ".endpoint / " + core + ".version:\n        minCount: 1\n"
+		}
+		builtinSpelling := "#%Validation Profile 1.0\nprofile: Builtin\n" + body("apiContract", "core")
+		ownSpelling := "#%Validation Profile 1.0\nprofile: Builtin\nprefixes:\n  own-api: " + apiNS + "\n  9core: " + coreNS + "\n" + body("own-api", "9core")
+		mixedSpelling := "#%Validation Profile 1.0\nprofile: Builtin\nprefixes:\n  zz: " + coreNS + "\n" + body("apiContract", "zz")
+		rebinder := "#%Validation Profile 1.0\nprofile: Rebinder\nprefixes:\n  apiContract: http://acme.example/vocab/api#\n  core: http://acme.example/vocab/core#\n" + body("apiContract", "core")
+		data := `{"@graph":[{"@id":"http://example.org/d#api1","@type":"` + apiNS + `WebAPI","` + coreNS + `name":"first"},
+ {"@id":"http://example.org/d#api2","@type":"` + apiNS + `WebAPI","` + coreNS + `name":"second","` + coreNS + `description":"d","` + apiNS + `endpoint":{"@id":"http://example.org/d#e"}},
+ {"@id":"http://example.org/d#e","` + coreNS + `version":"1"},
+ {"@id":"http://example.org/d#other","@type":"http://acme.example/vocab/api#WebAPI","http://acme.example/vocab/core#name":"acme"}]}`
+		run := func(p string) string {
+			out, err := pkg.ValidateWithConfiguration(p, data, false, nil, clockA, rc)
+			if err != nil {
+				return "error: " + err.Error()
+			}
+			sm, _ := summary(out)
+			return sm
+		}
+		ref := run(builtinSpelling)
+		steps := []struct{ what, p string }{{"own prefixes for the same namespaces", ownSpelling}, {"one built-in prefix, one own prefix", mixedSpelling},
+			{"ANOTHER profile binding apiContract / core elsewhere", rebinder}, {"the built-in spelling again", builtinSpelling}, {"own prefixes again", ownSpelling}, {"mixed again", mixedSpelling}}
+		hist := []string{"Validate(profile relying on the built-in prefixes apiContract / core)"}
+		for _, st := range steps {
+			got := run(st.p)
+			hist = append(hist, "Validate("+st.what+")")
+			if st.p != rebinder && got != ref {
+				res.Violate("impl-violates-property", "the same profile spelled with other prefixes for the same namespaces ("+st.what+") gives another verdict",
+					map[string]any{"profile_builtin_spelling": builtinSpelling, "profile_this_spelling": st.p, "other_profile_in_the_history": rebinder, "data": data, "history": append([]string{}, hist...),
+						"verdict_builtin_spelling_first": ref, "verdict_this_spelling": got})
+				break
+			}
+			res.Case("builtin-prefix-history|"+st.what, strings.Contains(ref, "|"))
+			res.Count("stream=builtin-prefix-history")
+		}
 	}
 }
